@@ -33,6 +33,8 @@ type Cfg struct {
 	// TimeoutMs (0 = 1000): the per-probe timeout; with a short one the later probes leave AFTER it has passed (they are sent
 	// 50 ms apart), which is fine: the listening budget is the timeout plus the send delays
 	TimeoutMs int `json:"timeout_ms,omitempty"`
+	// NoDelay: no pause between probes: several of them reach the destination before its first answer is back, and each is answered
+	NoDelay bool `json:"no_delay,omitempty"`
 }
 
 func (c Cfg) class() string {
@@ -48,6 +50,9 @@ func (c Cfg) class() string {
 	}
 	if c.TimeoutMs > 0 {
 		fam += fmt.Sprintf("/timeout-%dms", c.TimeoutMs)
+	}
+	if c.NoDelay {
+		fam += "/no-send-delay"
 	}
 	return fmt.Sprintf("len%d/%s-%s/port-%s/silent-%d/first-%d/x%d%s", c.Len, c.Proto, c.Method, c.Port, c.Silent, c.First, c.Concur, fam)
 }
@@ -92,6 +97,7 @@ func configs(tier string) []Cfg {
 					out = append(out, Cfg{Len: l, Proto: v.p, Method: v.m, Port: map[string]string{"syn": "open", "prefer_sack": "nosack"}[v.m], First: 1, Concur: 1, History: 2})
 				}
 				if v.m != "syn" {
+					out = append(out, Cfg{Len: l, Proto: v.p, Method: v.m, Port: "open", First: 1, Concur: 1, NoDelay: true})
 					// a timeout shorter than the time it takes to send the probes up to the destination (parallel engines)
 					out = append(out, Cfg{Len: l, Proto: v.p, Method: v.m, Port: "open", First: 1, Concur: 1, TimeoutMs: 80})
 				}
@@ -294,8 +300,8 @@ func invoke(l *lab, c Cfg, proto, method string) (*doc, string, error) {
 	}
 	src := l.ns[0]
 	var args []string
-	if c.First > 1 || c.History > 0 {
-		args = []string{"netns", "exec", src, os.Getenv("VERIF_C13_DRV"), "-proto", proto, "-method", method, "-port", port, "-min", fmt.Sprint(c.First), "-max", maxOf(c), "-timeout", timeoutOf(c), "-q", "1", "-e2e", fmt.Sprint(c.E2e), "-history", fmt.Sprint(c.History), dstAddr}
+	if c.First > 1 || c.History > 0 || c.NoDelay {
+		args = []string{"netns", "exec", src, os.Getenv("VERIF_C13_DRV"), "-proto", proto, "-method", method, "-port", port, "-min", fmt.Sprint(c.First), "-max", maxOf(c), "-timeout", timeoutOf(c), "-q", "1", "-e2e", fmt.Sprint(c.E2e), "-history", fmt.Sprint(c.History), "-delay", map[bool]string{false: "50", true: "0"}[c.NoDelay], dstAddr}
 	} else {
 		args = []string{"netns", "exec", src, os.Getenv("VERIF_C13_CLI"), "-P", proto, "-p", port, "-q", "1", "-Q", fmt.Sprint(c.E2e), "-m", maxOf(c), "--timeout", timeoutOf(c)}
 		if proto == "tcp" {
